@@ -60,24 +60,24 @@ mod vharness {
 
     //@harness props=C20,C05,C01 strength=proof clause="std.parseJson string lexer on one raw 1-byte character, EVERY ASCII byte: U+0000..U+001F are rejected (RFC 8259: control characters must be escaped), the quote ends the string, a lone backslash is an error, every other byte is kept exactly" replay=json_raw_char
     #[kani::proof]
-    #[kani::unwind(8)]
+    #[kani::unwind(4)]
     fn json_string_raw_char_1() { raw::<1, 3>(); }
     //@harness props=C20,C05,C01 strength=proof clause="std.parseJson string lexer on one raw 2-byte character, EVERY well-formed 2-byte UTF-8 sequence: accepted and kept exactly, one column" replay=json_raw_char
     #[kani::proof]
-    #[kani::unwind(8)]
+    #[kani::unwind(4)]
     fn json_string_raw_char_2() { raw::<2, 4>(); }
     //@harness props=C20,C05,C01 strength=proof clause="std.parseJson string lexer on one raw 3-byte character, EVERY well-formed 3-byte UTF-8 sequence: accepted and kept exactly, one column" replay=json_raw_char
     #[kani::proof]
-    #[kani::unwind(8)]
+    #[kani::unwind(5)]
     fn json_string_raw_char_3() { raw::<3, 5>(); }
     //@harness props=C20,C05,C01 strength=proof clause="std.parseJson string lexer on one raw 4-byte character, EVERY well-formed 4-byte UTF-8 sequence: accepted and kept exactly, one column" replay=json_raw_char
     #[kani::proof]
-    #[kani::unwind(8)]
+    #[kani::unwind(6)]
     fn json_string_raw_char_4() { raw::<4, 6>(); }
 
     //@harness props=C20,C05,C01 strength=proof clause="std.parseJson single-character escapes, EVERY ASCII byte after the backslash: \\\" \\\\ \\/ \\b \\f \\n \\r \\t decode to exactly the RFC 8259 characters; every other byte (incl. the apostrophe, which JSON does not allow) is an InvalidStringEscape error"
     #[kani::proof]
-    #[kani::unwind(8)]
+    #[kani::unwind(4)]
     fn json_string_single_escape() {
         let x: u8 = kani::any(); kani::assume(x < 0x80);
         let input = [b'"', b'\\', x, b'"', b'"'];
@@ -94,7 +94,7 @@ mod vharness {
 
     //@harness props=C20,C05 strength=proof expect=fail clause="canary"
     #[kani::proof]
-    #[kani::unwind(8)]
+    #[kani::unwind(4)]
     fn jsonlex_canary() {
         let x: u8 = kani::any(); kani::assume(x < 0x80);
         let input = [b'"', x, b'"'];
